@@ -29,11 +29,11 @@ def atoms_of_edge(F, src, label):
                 return []
         return [(e, v != neg)]
     if e[0] == 'discr':
-        names = F.variants_of(e[2]) or []
+        names = F.variants_of(e[2])
+        nm = (lambda v: names.get(v) or v) if names is not None else (lambda v: v)
         if label[0] == 'val':
-            i = int(label[1])
-            return [(('discr', e[1]), ('is', names[i] if i < len(names) else label[1]))]
-        return [(('discr', e[1]), ('not', tuple(names[int(v)] if int(v) < len(names) else v for v in label[1])))]
+            return [(('discr', e[1]), ('is', nm(label[1])))]
+        return [(('discr', e[1]), ('not', tuple(nm(v) for v in label[1])))]
     if label[0] == 'val':
         return [(e, ('eq', label[1]))]
     return [(e, ('ne', tuple(label[1])))]
